@@ -86,7 +86,8 @@ ARuleWalk(f, ns, times, trs, i, prev, acc) ==
   IF i > 7 THEN acc
   ELSE LET tt == times[i] w == trs[i]                                              \* w = <<before type, after type, instant if before, instant if after>>
            step == IF CLe(prev, w[3]) /\ CLt(w[3], tt) THEN <<NormalEntry(f, ns, w[1])>>
-                   ELSE IF CLe(tt, w[3]) /\ CLt(w[4], tt) THEN <<GapEntry(<<tt, w[1], w[2]>>, ns)>> ELSE <<>>
+                   \* a transition that coincides with the previous or the next one delimits an empty period: no jump there
+                   ELSE IF CLt(prev, tt) /\ i < 7 /\ CLt(tt, times[i + 1]) /\ CLe(tt, w[3]) /\ CLt(w[4], tt) THEN <<GapEntry(<<tt, w[1], w[2]>>, ns)>> ELSE <<>>
        IN ARuleWalk(f, ns, times, trs, i + 1, tt, acc \o step)
 ARulePart(z, f, ns, L0) ==
   IF z.rule.k = "none" THEN <<>>
